@@ -427,6 +427,68 @@ Proof.
   - eapply Permutation_in; [symmetry; exact HP|exact Hin].
 Qed.
 
+(** * A9 (finding, latent): transfer notifications of blackQuit follow the map order *)
+Lemma commit_dpos_black_events_spec {K : Type} (black : K * N -> bool) (order : list (K * N)) :
+  commit_dpos_black_events black order = map snd (filter black order).
+Proof.
+  unfold commit_dpos_black_events, range_fold.
+  assert (G : forall acc, fold_left (fun acc kv => if black kv then acc ++ [snd kv] else acc) order acc =
+                          acc ++ map snd (filter black order)).
+  { induction order as [|kv r IH]; intro acc; simpl.
+    - rewrite app_nil_r. reflexivity.
+    - rewrite IH. destruct (black kv); simpl; [rewrite <- app_assoc|]; reflexivity. }
+  apply (G []).
+Qed.
+
+Lemma commit_dpos_black_events_order_dependent :
+  exists (black : N * N -> bool) (o1 o2 : list (N * N)), NoDup (map fst o1) /\ Permutation o1 o2 /\
+    commit_dpos_black_events black o1 <> commit_dpos_black_events black o2.
+Proof.
+  exists (fun _ => true), [(1, 10); (2, 20)], [(2, 20); (1, 10)]. split; [|split].
+  - repeat constructor; simpl; intuition discriminate.
+  - apply perm_swap.
+  - vm_compute. discriminate.
+Qed.
+
+Lemma all_equal_repeat {A : Type} (v : A) (l : list A) : (forall x, In x l -> x = v) -> l = repeat v (length l).
+Proof.
+  induction l as [|a r IH]; simpl; intro H; [reflexivity|].
+  rewrite (H a (or_introl eq_refl)). f_equal. apply IH. intros x Hx. apply H. right. exact Hx.
+Qed.
+
+Lemma filter_perm {A : Type} (p : A -> bool) l1 l2 : Permutation l1 l2 -> Permutation (filter p l1) (filter p l2).
+Proof.
+  induction 1; simpl.
+  - reflexivity.
+  - destruct (p x); [apply perm_skip|]; assumption.
+  - destruct (p x), (p y); try reflexivity. apply perm_swap.
+  - etransitivity; eassumption.
+Qed.
+
+(** outside the finding class: at most one black-listed peer, or all of them with the same InitPos *)
+Lemma commit_dpos_black_events_same_pos {K : Type} (black : K * N -> bool) (v : N) o1 o2 :
+  Permutation o1 o2 -> (forall kv, In kv o1 -> black kv = true -> snd kv = v) ->
+  commit_dpos_black_events black o1 = commit_dpos_black_events black o2.
+Proof.
+  intros HP Hv. rewrite !commit_dpos_black_events_spec.
+  assert (HPf : Permutation (map snd (filter black o1)) (map snd (filter black o2)))
+    by (apply Permutation_map, filter_perm; exact HP).
+  assert (H1 : forall x, In x (map snd (filter black o1)) -> x = v).
+  { intros x Hx. apply in_map_iff in Hx. destruct Hx as [kv [Hs Hin]]. apply filter_In in Hin.
+    destruct Hin as [Hin Hb]. subst x. apply Hv; assumption. }
+  assert (H2 : forall x, In x (map snd (filter black o2)) -> x = v).
+  { intros x Hx. apply H1. eapply Permutation_in; [symmetry; exact HPf|exact Hx]. }
+  rewrite (all_equal_repeat v _ H1), (all_equal_repeat v _ H2). rewrite (Permutation_length HPf). reflexivity.
+Qed.
+
+Lemma commit_dpos_black_events_one_black {K : Type} (black : K * N -> bool) o1 o2 :
+  Permutation o1 o2 -> (length (filter black o1) <= 1)%nat ->
+  commit_dpos_black_events black o1 = commit_dpos_black_events black o2.
+Proof.
+  intros HP Hl. rewrite !commit_dpos_black_events_spec. f_equal.
+  apply perm_singleton; [apply filter_perm; exact HP|exact Hl].
+Qed.
+
 (** * The statement each lemma id stands for, and the proof that all of them hold *)
 Definition lemma_statement (l : lemma_id) : Prop :=
   match l with
